@@ -520,7 +520,20 @@ def r2(run: Run, src):
                   fact='rows outer, columns inner', loc=loc_of(fi.module.path, fi.node))
         run_method('get_matrix', {'first': CellR('0'), 'second': CellR('0')}, 'whole-column branches')
         run_method('get_range', {'first': CellR('0'), 'second': CellR('0')}, 'straight-line test')
-    run_method('get_similar_second', {'base': CellR('0'), 'first': CellR('0'), 'second': CellR('0')}, 'base + (second - first) per axis')
+    similar_by_eval = True
+    try:
+        sub_ = Run('tmp', run.tier, run.seed, quiet=True)
+        similar_eval(sub_, 'C02.R2', src)
+        for o_ in sub_.obligations:
+            if o_['verdict'] == 'holds':
+                run.ok('C02.R2', o_['construct'], o_['fact'], loc=o_['loc'])
+        for f_ in sub_.findings:
+            run.bad('C02.R2', f_['construct'], f_['sub'], f_['message'], loc=f_['loc'])
+    except AnalysisError as e_:
+        similar_by_eval = False
+        run.note(f'C02.R2: the SUMIF target by roles ({e_.reason[:100]})')
+    if not similar_by_eval:
+        run_method('get_similar_second', {'base': CellR('0'), 'first': CellR('0'), 'second': CellR('0')}, 'base + (second - first) per axis')
     run_method('get_cells', {}, 'enumeration of the three data levels')
     if checked < 16:
         raise AnalysisError('C02.R2', f'only {checked} role sinks were analysed')
@@ -647,6 +660,48 @@ def _area_evaluator(src, data_rows):
     titles = AV('dict', items=(AV('tuple', items=(const_av('S0'), const_av(0))), AV('tuple', items=(const_av('S1'), const_av(1)))))
     me = ev.new_obj('Excel', {'_data': lst(data_rows), '_titles': titles})
     return ev, me, make_cell
+
+
+def similar_eval(run: Run, rule: str, src):
+    """the last cell of a SUMIF target, decided by abstract evaluation (engine F) of the reader method that takes the first cell
+    of the target and the two corners of the criteria range: the target has the shape of the criteria range and lies where --
+    and on the sheet where -- its first cell is"""
+    from ..finite import const_av, Unknown, AbsRaise
+    ex = src.cls('Excel')
+    cands = [n for n, m in ex.methods.items() if len([p for p in m.params if p not in ('self', 'cls')]) == 3 and 'similar' in n]
+    if not cands:
+        cands = [n for n, m in ex.methods.items() if len([p for p in m.params if p not in ('self', 'cls')]) == 3 and not n.startswith('_')]
+    if len(cands) != 1:
+        raise AnalysisError(rule, f'the reader method that places a SUMIF target was not identified ({cands})')
+    name = cands[0]
+    cases = [((1, 1, 0), (0, 0, 0), (0, 0, 4), (1, 1, 4), 'target on another sheet'), ((0, 2, 1), (0, 0, 1), (0, 1, 3), (0, 3, 3), 'a 2x3 criteria range'),
+             ((0, 5, 5), (0, 1, 1), (0, 1, 1), (0, 5, 5), 'a one-cell criteria range'), ((1, 1, None), (0, 0, None), (0, 0, None), (1, 1, None), 'whole columns'),
+             ((0, 0, 0), (0, 3, 2), (0, 4, 6), (0, 1, 4), 'target left of and above the criteria range')]
+    data = [[[0] * 8 for _ in range(8)], [[0] * 8 for _ in range(8)]]
+    for base, first, second, want, what in cases:
+        ev, me, make_cell = _area_evaluator(src, data)
+        args = [make_cell([const_av(x) for x in c], {}) for c in (base, first, second)]
+        construct = f'Excel.{name}/{what}'
+        try:
+            res = ev.call_method(name, args, me)
+            cells = [res] if res.kind == 'obj' else list(res.items or ())
+            if not cells or cells[-1].kind != 'obj':
+                raise Unknown('a result that is not a cell')
+            at = ev.obj_attrs(cells[-1])
+            got = tuple(None if at[k].kind == 'none' else at[k].val for k in ('title', 'column', 'row'))
+            if len(cells) == 2:
+                at0 = ev.obj_attrs(cells[0])
+                got0 = tuple(None if at0[k].kind == 'none' else at0[k].val for k in ('title', 'column', 'row'))
+                if got0 != base:
+                    got = ('first corner', got0)
+        except Unknown as u:
+            raise AnalysisError(rule, f'{construct}: the abstraction cannot follow the reader ({u})')
+        except AbsRaise as e:
+            got = f'raises {e.exc}'
+        run.check(got == want, rule, construct, 'sumif-target',
+                  f'for a target starting at (sheet, column, row) {base} and the criteria range {first}..{second} ({what}) the target ends at '
+                  f'{got}; it has the shape of the criteria range and lies on the sheet of its first cell: {want}', fact=f'-> {got}',
+                  loc=loc_of(ex.module.path, ex.methods[name].node))
 
 
 def r2_eval_areas(run: Run, src):
